@@ -513,6 +513,18 @@ class Interp:
     def decide(self, key):
         if key in self.memo:
             return self.memo[key]
+        # the same question asked in other words: truthy(P) for a number P is "P != 0"
+        import re as _re
+        m_ = _re.fullmatch(r'truthy\((.*)\)', key)
+        if m_:
+            for alt in ('0 == %s' % m_.group(1), '%s == 0' % m_.group(1)):
+                if alt in self.memo:
+                    self.memo[key] = not self.memo[alt]
+                    return self.memo[key]
+        m_ = _re.fullmatch(r'0 == (.*)', key) or _re.fullmatch(r'(.*) == 0', key)
+        if m_ and ('truthy(%s)' % m_.group(1)) in self.memo:
+            self.memo[key] = not self.memo['truthy(%s)' % m_.group(1)]
+            return self.memo[key]
         i = len(self.trail)
         v = self.plan[i] if i < len(self.plan) else True
         self.trail.append((key, v))
